@@ -73,7 +73,9 @@ def run(ctx):
     ctx.rule = ("random tree states (n<=8 samples, <=4 leaves, <=4 clusters, integer features in {0,1,2} with ties and "
                 "constant columns, symmetric integer kernels PSD or not, explore subsets, feature subsets, min_samples_leaf 1..3) "
                 "plus an enumerated family of 4-sample states; non-trivial = at least one admissible split exists; "
-                "distinct = distinct state hash. All arithmetic exact (Fractions / Lean Rat).")
+                "distinct = distinct state hash. All arithmetic exact (Fractions / Lean Rat). Plus a few whole fits that grow more "
+                "than 32 leaves (n 70..110 distinct integer values, linear / block+noise / low-rank integer kernels, 36..55 clusters), judged "
+                "in floating point with a relative tolerance 1e-8 (membership, gain = real increase, telescoping, score).")
     data = regen(ctx)
     ctx.do_prove()
     binary_status(ctx)
@@ -144,7 +146,64 @@ def run(ctx):
     # whole fits: recorded gains telescope to J(final) - J(root), and the loop stops only for a stated reason
     fits(ctx, 25 if ctx.tier == "quick" else 200)
     hybrid_fits(ctx, 80 if ctx.tier == "quick" else 600)
+    deep_fits(ctx, 2 if ctx.tier == "quick" else 12)
     return ctx.finish()
+
+
+def gen_deep_case(rs):
+    """data on which the greedy search keeps finding splits of positive gain far beyond 32 leaves: many samples with many
+    distinct values, integer-valued (every kernel stock is then exact in floating point), many clusters allowed, no limits"""
+    n = int(rs.randint(70, 111))
+    d = int(rs.randint(1, 3))
+    X = np.zeros((n, d))
+    X[:, 0] = rs.permutation(n) - int(rs.randint(0, n))
+    if rs.rand() < 0.3:
+        X[:, 0] = np.floor(X[:, 0] / 2)          # pairs of exact ties
+    if d > 1:
+        X[:, 1] = rs.randint(0, 7, size=n)
+    kind = int(rs.randint(3))
+    if kind == 0:
+        kern = X @ X.T                               # linear kernel
+    elif kind == 1:
+        grp = rs.randint(0, 45, size=n)              # block kernel of many small groups + symmetric integer noise (not PSD)
+        N = rs.randint(-1, 2, size=(n, n))
+        kern = (6 * (grp[:, None] == grp[None, :]) + N + N.T).astype(float)
+        X[:, 0] = grp * 3 + rs.randint(0, 3, size=n)
+    else:
+        A = rs.randint(-2, 3, size=(n, 5))           # low-rank PSD + linear
+        kern = (A @ A.T).astype(float) + X[:, :1] @ X[:, :1].T
+    params = dict(max_clusters=int(rs.randint(36, 56)), max_depth=None, min_samples_leaf=1, min_samples_split=2,
+                  max_features=None, max_leaves=[None, None, 64][rs.randint(3)], kernel="precomputed",
+                  random_state=int(rs.randint(1000)))
+    return X, kern, params
+
+
+def deep_fits(ctx, nfits):
+    """whole fits that grow MORE THAN 32 LEAVES (n 70..110, many clusters, no structural limit), judged in floating point with
+    a tolerance (integer kernels: the stocks are exact, only divisions round) because the exact pipeline is too slow at that
+    size: every sample in exactly one leaf at every step, recorded gain = real objective increase of the applied split, the next
+    state is the split applied, root + sum of gains = objective of labels_ = score (harness.kauri_lib.traced_fit_errors)"""
+    rs = np.random.RandomState(ctx.seed * 977 + 41)
+    how = "harness.kauri_lib.run_traced_fit(X, kernel, params) ; harness.kauri_lib.traced_fit_errors(X, kernel, h)"
+    for t in range(nfits):
+        X, kern, params = gen_deep_case(rs)
+        inp = {"X": X.tolist(), "kernel": kern.tolist(), "params": params}
+        try:
+            h = kl.run_traced_fit(X, kern, params, exact=False)
+        except Exception as e:
+            ctx.case(("deep-raise", X.tobytes(), kern.tobytes(), repr(sorted(params.items(), key=str))), False, None)
+            ctx.violation(f"Kauri.fit raised {type(e).__name__}: {e} (deep tree)", "fit:deep", inp, key=f"fit:deep:raise:{type(e).__name__}", how=how)
+            continue
+        nleaves = len(set(h["model"].leaves_.tolist()))
+        nnodes = h["model"].tree_.n_nodes
+        ctx.case(("deep", X.tobytes(), kern.tobytes(), repr(sorted(params.items(), key=str))), nnodes > 2 * 32 - 1,
+                 {"n": len(X), "params": params, "leaves": (nnodes + 1) // 2})
+        ctx.compared("fit:deep")
+        ctx.count("deep:leaves>32" if nnodes > 2 * 32 - 1 else "deep:leaves<=32")
+        ctx.count("deep-step-states", len(h["calls"]))
+        for key, msg in kl.traced_fit_errors(X, kern, h):
+            ctx.violation(msg + f" (tree of {(nnodes + 1) // 2} leaves, leaves_ has {nleaves} ids)", "fit:deep", inp,
+                          key="fit:deep:" + key, how=how)
 
 
 def hybrid_fits(ctx, nfits):
